@@ -66,6 +66,8 @@ class Gen:
         s = self.spec(r.choice([0, 1, 1, 2, 2, 3]))
         if r.random() < 0.15:
             s = ['Limit', r.choice([0, 1, 2, 3, 5]), s]
+        elif r.random() < 0.04:
+            s = ['Limit', r.choice([0, 1, 2, 3, 5]), ['List', ['Fn', ['id']]], 'default']     # Limit(n): the sub-spec defaults to [T]
         n = r.choice([0, 1, 2, 3, 4, 5, 6, 7, 9])
         pool = r.choice([[0, 1, 2, 3, 4, 5, 6, 7, 8, 9, 10, -1, -2]] * 3 + [[-3, -2, -1, 0, 0, 1], [-4, -2, 0, 0, -6]])   # falsy running aggregates
         items = [r.choice(pool) for _ in range(n)]
@@ -115,7 +117,7 @@ def build(s):
     if k == 'Fn':
         return fn_of(s[1])
     if k == 'Limit':
-        return grouping.Limit(s[1], build(s[2]))
+        return grouping.Limit(s[1]) if len(s) > 3 else grouping.Limit(s[1], build(s[2]))
     a = s[1]
     if a in ('First', 'Max', 'Min', 'Avg'):
         return getattr(grouping, a)()
